@@ -360,6 +360,9 @@ class LabelFlow:
             # a later absolute component discards the earlier ones; labels simply union
             return allargs
         if name in ("sorted",):
+            # a stable sort with a key that is not injective (str.lower, len, ...) leaves ties in listing order
+            if any(k.arg == "key" for k in c.keywords):
+                return allargs
             return allargs - {ORDER}
         if name in LISTING or short in ("listdir", "scandir", "iterdir", "glob", "rglob"):
             return allargs | {ORDER}
@@ -369,7 +372,8 @@ class LabelFlow:
             return L({ENV})
         if short in ("sort",) and isinstance(c.func, ast.Attribute) and isinstance(c.func.value, ast.Name):
             n = c.func.value.id
-            env[n] = env.get(n, EMPTY) - {ORDER}
+            if not any(k.arg == "key" for k in c.keywords):
+                env[n] = env.get(n, EMPTY) - {ORDER}
             return EMPTY
         if short in ("append", "extend", "insert", "add", "update") and isinstance(c.func, ast.Attribute):
             base = c.func.value
